@@ -17,6 +17,16 @@ def run(res):
     if unrec:
         res.notes.append("translator met unfamiliar shapes (affected descriptions fall back to the grammar / repaired behaviour; "
                          "the property then stands on the correspondence for them): %s" % json.dumps(unrec)[:1500])
+    # hand-modelled Go functions: say so when one is no longer the shape the model was written against
+    try:
+        pinned = json.load(open(os.path.join(vlib.VERIF, "checks", "codec_shapes.json")))
+        moved = sorted(k for k, v in pinned.items() if tr["shapes"].get(k) != v)
+        if moved:
+            res.notes.append("hand-modelled functions changed since the model was written (the theorems speak about them only as far as the "
+                             "differential run ties the model to the new code): " + ", ".join(moved))
+        res.cov["hand_modelled_functions_changed"] = moved
+    except Exception as x:
+        res.notes.append("codec_shapes.json unreadable: %s" % x)
     pr = vlib.coq_check_props("Props/C12.v", runners=["Run/CodecRun.v"])
     res.add_proof(pr, CHECKER)
     res.cov["trusted_base"] = vlib.TRUSTED_BASE_COMMON + [
